@@ -197,7 +197,7 @@ type tierCfg struct {
 }
 
 var tiers = map[string]tierCfg{
-	"quick":    {queryMs: 45000, feasMs: 4000, maxPaths: 30000, maxDepth: 400, maxSteps: 3000000},
+	"quick":    {queryMs: 45000, feasMs: 4000, maxPaths: 40000, maxDepth: 400, maxSteps: 3000000},
 	"thorough": {queryMs: 120000, feasMs: 5000, maxPaths: 600000, maxDepth: 400, maxSteps: 6000000},
 }
 
